@@ -2,6 +2,7 @@ package main
 
 import (
 	"go/token"
+	"go/types"
 
 	"golang.org/x/tools/go/ssa"
 )
@@ -37,10 +38,27 @@ func ruleImmediatesCheckedBeforeEveryReader(c *Ctx) {
 		})
 	bypass := GCmp("Size == 0", token.EQL, func(v ssa.Value) bool { return Mentions(v, fSize, 6) }, IsConstInt(0))
 	owners := map[string]bool{lg + "EvalContext.step": true, lg + "EvalContext.checkStep": true}
+	// wrappers: functions of the package (other than the owners) that call Cost, directly or through one more wrapper;
+	// a call of a wrapper is a reader of the immediates just like a call of Cost itself
+	readers := []*types.Func{costF}
+	wrapper := map[string]bool{}
+	for round := 0; round < 2; round++ {
+		for _, fn := range c.funcsOf(Mod + "/data/transactions/logic") {
+			if owners[fnName(fn)] || wrapper[fnName(fn)] || fn.Object() == nil {
+				continue
+			}
+			if len(CallsTo(fn, false, readers...)) > 0 {
+				if fo, ok := fn.Object().(*types.Func); ok {
+					wrapper[fnName(fn)] = true
+					readers = append(readers, fo)
+				}
+			}
+		}
+	}
 	for spec := range owners {
 		fn := c.Fn(spec)
 		var eff []ssa.Instruction
-		for _, call := range CallsTo(fn, false, costF) {
+		for _, call := range CallsTo(fn, false, readers...) {
 			eff = append(eff, call)
 		}
 		if spec == lg+"EvalContext.checkStep" {
@@ -61,9 +79,9 @@ func ruleImmediatesCheckedBeforeEveryReader(c *Ctx) {
 	// nobody else prices an instruction
 	n := 0
 	for _, fn := range c.funcsOf(Mod + "/data/transactions/logic") {
-		for _, call := range CallsTo(fn, false, costF) {
+		for _, call := range CallsTo(fn, false, readers...) {
 			n++
-			c.Check(owners[fnName(fn)], rule, fnName(fn)+":call OpDetails.Cost", c.Pos(call.Pos()), "OpDetails.Cost indexes the program at pc+1+i; it is called only where the immediates were bounds-checked")
+			c.Check(owners[fnName(fn)] || wrapper[fnName(fn)], rule, fnName(fn)+":call OpDetails.Cost", c.Pos(call.Pos()), "OpDetails.Cost indexes the program at pc+1+i; it is called only where the immediates were bounds-checked")
 		}
 	}
 	if n == 0 {
